@@ -14,6 +14,7 @@ from typing import Dict, List, Optional, Set, Tuple
 
 from ..model import Repo, ClassInfo, FuncInfo, AnalysisError, norm, parent, ancestors, enclosing_stmt, const_str
 from ..report import Ctx, RuleResult
+from ..exprs import has_pat, find_pat
 
 ATOMS = ('K', 'T', 'F', 'U')
 
@@ -167,9 +168,10 @@ def run_keep(ctx: Ctx) -> RuleResult:
         res.finding(gc, gc.node, 'Grammar.compile no longer clears filter_out for terminals of keep_all_tokens rules', construct='keep:normalise')
     # producers of filter_out
     pat = repo.func('lark.load_grammar:PrepareAnonTerminals.pattern')
-    fo = [n.value for n in pat.body_nodes() if isinstance(n, ast.Assign) and norm(n.targets[0]) == 'filter_out']
-    okp = len(fo) == 1 and isinstance(fo[0], ast.IfExp) and norm(fo[0].body) == 'False' and 'keep_all_tokens' in norm(fo[0].test) \
-        and norm(fo[0].orelse) == 'isinstance(p, PatternStr)'
+    pparam = pat.positional_names()[0] if pat.positional_names() else 'p'
+    fo = find_pat(pat.body_nodes(), '$fo = False if $$cond else isinstance($p, PatternStr)', {'p': pparam})
+    okp = len(fo) == 1 and 'keep_all_tokens' in fo[0][1]['$$cond'] and \
+        has_pat(pat.body_nodes(), 'return Terminal($$n, filter_out=$fo)', {'fo': fo[0][1]['fo']})
     res.ob('%s %s' % (pat.loc(), pat.qual), 'anonymous terminals: filtered iff they are string literals (never under !)', okp)
     if not okp:
         res.finding(pat, pat.node, 'anonymous terminals are no longer marked "filter out iff string literal (and the rule is not !)"',
@@ -315,12 +317,14 @@ def run_ambig_index(ctx: Ctx) -> RuleResult:
     calls = [n for n in ib.body_nodes() if isinstance(n, ast.Call) and norm(n.func) in ('maybe_create_child_filter', 'maybe_create_ambiguous_expander')]
     for c in calls:
         pos = 0 if norm(c.func) == 'maybe_create_child_filter' else 1
-        ok = len(c.args) > pos and norm(c.args[pos]) == 'rule.expansion'
+        # <loop variable over the rules>.expansion
+        rvars = {norm(l.target) for l in ib.body_nodes() if isinstance(l, ast.For) and isinstance(l.target, ast.Name)}
+        ok = len(c.args) > pos and isinstance(c.args[pos], ast.Attribute) and c.args[pos].attr == 'expansion' and norm(c.args[pos].value) in rvars
         res.ob(ib.loc(c), '%s receives rule.expansion' % norm(c.func), ok)
         if not ok:
             res.finding(ib, c, '%s is not given the rule\'s own expansion' % norm(c.func), construct='index-arg:' + norm(c.func))
     # placeholders only when maybe_placeholders
-    ok = any('options.empty_indices if self.maybe_placeholders else None' in norm(c) for c in calls)
+    ok = any(has_pat(list(ast.walk(c)), '$o.empty_indices if self.maybe_placeholders else None') for c in calls)
     res.ob(site, 'None placeholders are inserted only under maybe_placeholders', ok, props=['C03'])
     if not ok:
         res.finding(ib, ib.node, 'empty_indices are passed to the child filter regardless of maybe_placeholders', construct='placeholders', props=['C03'])
@@ -348,8 +352,11 @@ def run_ambig_index(ctx: Ctx) -> RuleResult:
         if not ok:
             res.finding(m, m.node, '%s no longer inserts the None placeholders before the kept child / at the end' % cname, construct=cname + ':nones', props=['C03'])
     mcf = repo.func('lark.parse_tree_builder:maybe_create_child_filter')
-    body = ' '.join(norm(s) for s in mcf.node.body)
-    ok = 'nones_to_add += empty_indices[i]' in body and 'nones_to_add = 0' in body and 'nones_to_add += empty_indices[len(expansion)]' in body
+    acc = find_pat(mcf.body_nodes(), '$n += $e[$i]')
+    ok = False
+    for _n, b_ in acc:
+        if has_pat(mcf.body_nodes(), '$n = 0', {'n': b_['n']}) and has_pat(mcf.body_nodes(), '$n += $e[len($x)]', {'n': b_['n'], 'e': b_['e']}):
+            ok = True
     res.ob('%s %s' % (mcf.loc(), mcf.qual), 'placeholders accumulate over dropped symbols and attach to the next kept one', ok, props=['C03'])
     if not ok:
         res.finding(mcf, mcf.node, 'the accumulation of None placeholders over filtered symbols changed', construct='nones-accumulate', props=['C03'])
